@@ -65,6 +65,43 @@ def verify_one(task):
                 "trace": traceback.format_exc()[-3000:], "obligations": [], "time": round(time.time() - t0, 2)}
 
 
+def run_driver(modname, prop, tier, seed, jobs):
+    """Bounded stand-in: run rtc/<modname>.py in its own process (it imports the project from PYVC_REPO and may
+    fork workers); its JSON result is read from a file.  A crash of the driver is a checker error, never a violation."""
+    import subprocess
+    import tempfile
+    if not os.path.exists(os.path.join(VERIF, "rtc", modname + ".py")):
+        return {"name": modname, "status": "checker_error", "reason": f"driver rtc/{modname}.py is missing"}
+    fd, outp = tempfile.mkstemp(suffix=".json")
+    os.close(fd)
+    code = ("import json, sys, os\n"
+            "sys.path.insert(0, %r); sys.path.insert(0, os.environ.get('PYVC_REPO', '/repo'))\n"
+            "import importlib\n"
+            "m = importlib.import_module('rtc.%s')\n"
+            "r = m.run(%r, %r, %d, %d)\n"
+            "json.dump(r, open(%r, 'w'), default=str)\n") % (VERIF, modname, prop, tier, seed, jobs, outp)
+    limit = int(os.environ.get("VERIF_DRIVER_TIMEOUT", "900" if tier == "quick" else "3600"))
+    try:
+        p = subprocess.run([sys.executable, "-c", code], cwd=VERIF, stdout=subprocess.PIPE, stderr=subprocess.PIPE,
+                           text=True, timeout=limit, env=dict(os.environ, PYTHONHASHSEED="0"))
+        if p.returncode != 0 or os.path.getsize(outp) == 0:
+            return {"name": modname, "status": "checker_error",
+                    "reason": f"driver exited {p.returncode}", "trace": (p.stderr or "")[-3000:]}
+        r = json.load(open(outp))
+        r.setdefault("name", modname)
+        return r
+    except subprocess.TimeoutExpired:
+        return {"name": modname, "status": "checker_error", "reason": f"driver exceeded {limit}s"}
+    except Exception as e:
+        return {"name": modname, "status": "checker_error", "reason": f"{type(e).__name__}: {e}",
+                "trace": traceback.format_exc()[-2000:]}
+    finally:
+        try:
+            os.unlink(outp)
+        except OSError:
+            pass
+
+
 def load_known():
     path = os.path.join(VERIF, "KNOWN_FINDINGS.jsonl")
     out = []
@@ -129,11 +166,7 @@ def main(argv):
     # ---- bounded stand-ins
     bounded = []
     for b in P.bounded:
-        try:
-            bounded.append(b(args.tier, seed))
-        except Exception as e:
-            bounded.append({"name": getattr(b, "__name__", "bounded"), "status": "checker_error",
-                            "reason": f"{type(e).__name__}: {e}", "trace": traceback.format_exc()[-2000:]})
+        bounded.append(run_driver(b, args.prop, args.tier, seed, args.jobs))
     known = load_known()
     from . import report
     return report.finish(args, P, results, bounded, known, ax_n, t0, seed)
